@@ -18,7 +18,6 @@ CONSTANTS L0, L1,     \* lengths of the input and of the decode target
           Types, Kinds,   \* hit types ("" is the root's type) and value kinds on the input
           Types1, Kinds1  \* ... and on the decode target
 
-Tup(f) == f \o <<>>                            \* force a lazily evaluated function into a tuple
 Letters(base, n) == Tup([i \in 1..n |-> base + i - 1])
 Input  == Letters(97, L0)                       \* "abc"
 Target == Letters(100 + L0, L1)                 \* distinct from the input's letters
